@@ -336,7 +336,7 @@ def parse_assumptions(output):
 
 
 
-def coqchk(pid, timeout=3000):
+def coqchk(pid, timeout=1800):
     """independent re-check of props/<pid>.vo and everything it depends on (thorough tier).
     returns {"ok": bool, "axioms": [...], "unsafe": [...], "wall_s": s, "tail": text}"""
     t0 = time.time()
